@@ -86,6 +86,30 @@ static void probe_plin(OggVorbis_File *vf,vfile *F,char *out,size_t outn){
   }
 }
 
+/* concatenation probe (works for streaming handles too): everything read from here to the
+ * end must be the tail of the reference, link by link; positions are not consulted */
+static void probe_pcat(OggVorbis_File *vf,vfile *F,char *out,size_t outn){
+  int hs=(vf->vi&&vf->vi->codec_setup)?((codec_setup_info*)vf->vi->codec_setup)->halfrate_flag:0;
+  refdec *r; long nread=0; int curlink=-1; long idx=0; int lastbs=-1; int holes=0;
+  if(hs){ need_href(F); r=&F->href; } else { need_ref(F); r=&F->ref; }
+  if(!r->ok){ snprintf(out,outn,"noref"); return; }
+  while(1){
+    float **pcm; int bs=-1; long n=ov_read_float(vf,&pcm,4096,&bs); int c;
+    if(n==0)break;
+    if(n==OV_HOLE){ holes++; if(holes>1000)break; continue; }
+    if(n<0){ snprintf(out,outn,"bad:readerr%ld:%ld",n,nread); return; }
+    if(bs!=lastbs){ curlink++; idx=0; lastbs=bs; while(curlink<r->nlinks&&r->len[curlink]==0)curlink++; }
+    if(curlink>=r->nlinks){ snprintf(out,outn,"bad:extralink:%ld",nread); return; }
+    if(ov_info(vf,-1)->channels!=r->ch[curlink]){ snprintf(out,outn,"bad:channels:%ld",nread); return; }
+    if(idx+n>r->len[curlink]){ snprintf(out,outn,"bad:overrun:link%d:%ld+%ld>%ld",curlink,idx,n,r->len[curlink]); return; }
+    for(c=0;c<r->ch[curlink];c++)if(memcmp(pcm[c],r->pcm[curlink][c]+idx,sizeof(float)*n)){ snprintf(out,outn,"bad:pcm:link%d:idx%ld",curlink,idx); return; }
+    idx+=n; nread+=n;
+  }
+  if(holes){ snprintf(out,outn,"bad:holes%d:%ld",holes,nread); return; }
+  if(nread!=r->total){ snprintf(out,outn,"bad:count:read%ld:expected%ld",nread,r->total); return; }
+  snprintf(out,outn,"ok:%ld",nread);
+}
+
 static long misc_calls(OggVorbis_File *vf,int i,h128 *h){
   vorbis_info *vi; vorbis_comment *vc; long bad=0;
   h_i64(h,ov_streams(vf)); h_i64(h,ov_seekable(vf));
@@ -101,14 +125,15 @@ static long misc_calls(OggVorbis_File *vf,int i,h128 *h){
 }
 
 int main(int argc,char **argv){
-  const char *files=NULL,*cases=NULL; int timeout=20; int describe=0; int i; FILE *cf; char *line=NULL; size_t cap=0;
+  const char *files=NULL,*cases=NULL; int timeout=20; int describe=0,refstats=0; int i; FILE *cf; char *line=NULL; size_t cap=0;
   for(i=1;i<argc;i++){
     if(!strcmp(argv[i],"--files"))files=argv[++i];
     else if(!strcmp(argv[i],"--cases"))cases=argv[++i];
     else if(!strcmp(argv[i],"--timeout"))timeout=atoi(argv[++i]);
     else if(!strcmp(argv[i],"--describe"))describe=1;
+    else if(!strcmp(argv[i],"--refstats"))refstats=1;
   }
-  if(!files||(!cases&&!describe)){ fprintf(stderr,"usage\n"); return 2; }
+  if(!files||(!cases&&!describe&&!refstats)){ fprintf(stderr,"usage\n"); return 2; }
   load_files(files);
   if(describe){
     /* observations used only to choose alphabets (never as an oracle) */
@@ -127,6 +152,16 @@ int main(int argc,char **argv){
     }
     printf("]\n"); return 0;
   }
+  if(refstats){
+    int f; printf("[");
+    for(f=0;f<g_nfiles;f++){
+      vfile *F=&g_files[f]; int l; need_href(F);
+      printf("%s{\"ref_ok\":%d,\"ref_tell_errors\":%ld,\"ref_holes\":%d,\"href_ok\":%d,\"href_tell_errors\":%ld,\"links\":[",f?",":"",F->ref.ok,F->ref.tell_errors,F->ref.holes,F->href.ok,F->href.tell_errors);
+      for(l=0;l<F->ref.nlinks;l++)printf("%s{\"len\":%ld,\"hlen\":%ld,\"total\":%ld}",l?",":"",F->ref.len[l],F->href.ok?F->href.len[l]:-1,F->link_total[l]);
+      printf("]}");
+    }
+    printf("]\n"); return 0;
+  }
   cf=fopen(cases,"r"); if(!cf)return 2;
   signal(SIGVTALRM,on_alarm);
   while(getline(&line,&cap,cf)>0){
@@ -141,7 +176,7 @@ int main(int argc,char **argv){
     tok=strtok_r(NULL," \n",&sv); strncpy(probe,tok,sizeof(probe)-1); probe[sizeof(probe)-1]=0;
     if(fno<0||fno>=g_nfiles){ printf("%ld BADCASE\n",idx); continue; }
     /* references are computed outside the watchdog and the script */
-    if(!strcmp(probe,"plin")){ need_ref(F); }
+    if(!strcmp(probe,"plin")||!strcmp(probe,"pcat")){ need_href(F); }
     memset(&it,0,sizeof(it)); it.it_value.tv_sec=timeout; setitimer(ITIMER_VIRTUAL,&it,NULL);
     mio_init(&m,F->data,F->len); parse_env(&m,envs);
     memset(&vf,0x5a,sizeof(vf));
@@ -189,15 +224,16 @@ int main(int argc,char **argv){
     h_hex(&sh,hx);
     {
       long tell=cleared||orc<0?-1:(long)ov_pcm_tell(&vf);
-      long points=m.npoints,hits=m.dev_hits;
+      long points=m.npoints,hits=m.dev_hits; long total_after=(cleared||orc<0)?-1:(long)ov_pcm_total(&vf,-1);
       if(!cleared&&orc==0){
         if(!strcmp(probe,"plin"))probe_plin(&vf,F,pres,sizeof(pres));
+        else if(!strcmp(probe,"pcat"))probe_pcat(&vf,F,pres,sizeof(pres));
         else if(!strcmp(probe,"misc")){ h128 hh; int k; h_init(&hh); for(k=-1;k<=vf.links;k++)misc_calls(&vf,k,&hh); snprintf(pres,sizeof(pres),"%016llx",(unsigned long long)hh.a); }
       }
       if(!cleared){ long c0=m.nclose; ov_clear(&vf); if(orc==0&&m.nclose!=c0+1)addflag(&fl,"clear_close_count"); if(orc<0&&m.nclose!=c0)addflag(&fl,"clear_closed_failed_open");
         { long c1=m.nclose; ov_clear(&vf); if(m.nclose!=c1)addflag(&fl,"double_close"); } }
       memset(&it,0,sizeof(it)); setitimer(ITIMER_VIRTUAL,&it,NULL);
-      printf("%ld O=%d R=%s H=%s T=%ld P=%s E=%ld D=%ld C=%ld B=%ld F=%s\n",idx,orc,rbuf[0]?rbuf:"-",hx,tell,pres,points,hits,m.nclose,m.max_backhop,fl.flags[0]?fl.flags:"-");
+      printf("%ld O=%d R=%s H=%s T=%ld P=%s E=%ld D=%ld C=%ld B=%ld N=%ld F=%s\n",idx,orc,rbuf[0]?rbuf:"-",hx,tell,pres,points,hits,m.nclose,m.max_backhop,total_after,fl.flags[0]?fl.flags:"-");
       fflush(stdout);
     }
     next:;
